@@ -26,7 +26,7 @@ pub fn cfg(ordered_share: u16) -> Cfg {
         Resp::Answers,
         Resp::AnswersUserPanic,
     ];
-    cfg.matchers = vec![MatcherKind::FuncDebug, MatcherKind::FuncDebug, MatcherKind::Func, MatcherKind::Macro(0)];
+    cfg.matchers = vec![MatcherKind::FuncDebug, MatcherKind::FuncDebug, MatcherKind::Func, MatcherKind::Macro(0), MatcherKind::FuncDebug, MatcherKind::FuncUserPanic];
     cfg.max_clauses = 3;
     cfg.max_stub_pats = 2;
     cfg.max_chain = 5;
@@ -82,6 +82,75 @@ pub fn check(scn: &Scenario) -> Result<CaseInfo, String> {
     }
 }
 
+/// Histories that go on after rejected calls (ordered and unordered), judged without a model of which
+/// calls are accepted: whenever a call IS answered by pattern P, the segment of its tag must be the one
+/// the chain assigns to P's number of earlier answered matches. Responses are answers()/answers_arc()
+/// only, so that every match yields a tag.
+pub fn cfg_after_rejection() -> Cfg {
+    let mut cfg = cfg(130);
+    cfg.resps = vec![Resp::Answers, Resp::AnswersArc];
+    cfg.stop_at_deviation = false;
+    cfg.prefer_match = 150;
+    cfg.guide = 170;
+    cfg.max_history = 28;
+    cfg
+}
+
+pub fn check_after_rejection(scn: &Scenario) -> Result<CaseInfo, String> {
+    let model = match crate::model::Model::new(scn.partial, &scn.clauses, &crate::traits::FACTS) {
+        Ok(m) => m,
+        Err(_) => return Ok(CaseInfo::new(false).class("construct-error")),
+    };
+    let real = crate::exec::run_real(scn);
+    if let Some(e) = real.construct_error {
+        return Err(format!("construction of a consistent setup panicked: {e}"));
+    }
+    let mut pats: std::collections::BTreeMap<u16, &crate::model::MPat> = Default::default();
+    for m in model.methods.values() {
+        for p in &m.pats {
+            pats.insert(p.id, p);
+        }
+    }
+    let mut answered: std::collections::BTreeMap<u16, usize> = Default::default();
+    let mut rejected_before_answer = false;
+    let mut rejections = 0usize;
+    let mut shifted_possible = false;
+    for (k, ((obs, _), call)) in real.calls.iter().zip(scn.history.iter()).enumerate() {
+        match obs {
+            Obs::Value(v) if *v >= 1 && *v < 5_000_000 => {
+                let id = ((*v - 1) / 100) as u16;
+                let seg = ((*v - 1) % 100) as usize;
+                let Some(p) = pats.get(&id) else {
+                    return Err(format!("call #{k}: value {v} is the tag of no configured pattern"));
+                };
+                let n = answered.entry(id).or_default();
+                if let Some(want) = p.segment_for(*n) {
+                    if want != seg {
+                        return Err(format!(
+                            "call #{k} {:?}: pattern P{id} answered its match #{} with the response of segment {seg}, its chain assigns segment {want} (rejected calls so far: {rejections})",
+                            call,
+                            *n + 1
+                        ));
+                    }
+                }
+                if rejections > 0 {
+                    rejected_before_answer = true;
+                    if p.segs.len() >= 2 {
+                        shifted_possible = true;
+                    }
+                }
+                *n += 1;
+            }
+            Obs::MockPanic(_) => rejections += 1,
+            _ => {}
+        }
+    }
+    Ok(CaseInfo::new(shifted_possible)
+        .class_if(rejected_before_answer, "answered-call-after-a-rejected-one")
+        .class_if(shifted_possible, "multi-segment-pattern-answers-after-a-rejection")
+        .class_if(scn.clauses.iter().any(|c| c.ordered()), "has-ordered-pattern"))
+}
+
 pub const RULE: &str = "scenarios = 1-3 clauses (some_call/each_call/next_call/stub) whose patterns carry generated quantifier chains of 1-5 segments (once / n_times(0..4) joined by then(), closed by nothing, an unquantified response or at_least_times(0..4)) over all response kinds (returns, returns_default, answers, answers_arc, panics, applies_unmocked, applies_default_impl, panicking answer), histories of up to 28 calls steered to matching calls so that match counts run from 0 to beyond the chain's end, via original and clones; non-trivial = a pattern with >= 2 segments was matched past its first segment, or a single-use value was requested twice; distinct = distinct scenario";
 
 pub fn run(ctx: &Ctx) -> Verdict {
@@ -97,6 +166,7 @@ pub fn run(ctx: &Ctx) -> Verdict {
         .push(vcore::run_proptest(ctx, "unordered-chains", n, gen::scenario(cfg(0)), check));
     v.subs
         .push(vcore::run_proptest(ctx, "mixed-ordered-chains", n, gen::scenario(cfg(110)), check));
+    v.subs.push(vcore::run_proptest(ctx, "answers-after-rejections", n / 2, gen::scenario(cfg_after_rejection()), check_after_rejection));
     // the single-use rule for every composite return shape (owned leaves up to three levels down):
     // the C12 grid (shape x entry x quantifier x 0..3 requests), here for "the second request panics"
     #[cfg(feature = "std")]
@@ -116,6 +186,10 @@ pub fn run(ctx: &Ctx) -> Verdict {
 }
 
 pub fn replay(_sub: &str, case: Value) -> Result<(), String> {
+    if _sub == "answers-after-rejections" {
+        let scn: Scenario = serde_json::from_value(case).map_err(|e| format!("HARNESS: bad case: {e}"))?;
+        return check_after_rejection(&scn).map(|_| ());
+    }
     #[cfg(feature = "std")]
     if _sub == "single-use-composite-shapes" {
         let c: super::c12::LinearCase = serde_json::from_value(case).map_err(|e| format!("HARNESS: bad case: {e}"))?;
